@@ -9,7 +9,11 @@ use std::fmt;
 use std::marker::PhantomData;
 use std::pin::Pin;
 use std::task::{Context, Poll};
-use std::time::{Duration, Instant};
+use std::time::Duration;
+#[cfg(not(all(excsn_fibre_verif, not(loom))))]
+use std::time::Instant;
+#[cfg(all(excsn_fibre_verif, not(loom)))]
+use crate::internal::sync::Instant;
 
 use futures_core::Stream;
 
